@@ -859,7 +859,9 @@ theorem exceptHandler_step (sc : Nat) (c : Node) (t : Tok) (kids : List Node) (h
               obtain ⟨v, hv, fv⟩ := Frag.as_inv fa has
               simp [hv, child]
               refine NPQ.bind _ _ (fun _ => True) _ (tokOf_np v fv) (fun _ _ => NPQ.pure _ _ fst)
-            · np
+            · split
+              · exact NPQ.pure _ _ fst
+              · np
           · np
         · refine NPQ.bind _ _ (fun _ => True) _ (typedMatch_np _ _ _ (by
             intro m hm
